@@ -75,7 +75,7 @@ class Prop:
     # ----- generation
     def tree_descs(self, tier, rng):
         nmax = 4 if tier == "quick" else 5
-        per_shape = 8 if tier == "quick" else 14
+        per_shape = 8 if tier == "quick" else 10
         for n in range(0, nmax + 1):
             for shape in H.forests(n):
                 for lab in label_patterns(n, rng, per_shape):
@@ -89,7 +89,7 @@ class Prop:
                     td = dict(typed=typed, univ=univ, nodes=nodes, calc=rng.choice([None, None, None, "name"]))
                     if valid_desc(td):
                         yield td
-        nrand = 120 if tier == "quick" else 600
+        nrand = 120 if tier == "quick" else 400
         for _ in range(nrand):
             n = rng.randint(5, 12)
             shape = H.random_shape(rng, n, deep=rng.choice([0.2, 0.5, 0.8]))
@@ -116,7 +116,7 @@ class Prop:
             for _ in range(2):
                 ms = rng.choice(["cb", "derived"] + (["none"] if only_str else []))
                 o = dict(td, km=rng.choice(KMS), vm=rng.choice(VMS), mapper=ms,
-                         meta=rng.choice([None, None, {"foo": "bar"}, {"n": 1, "l": [1, "x", None, True], "d": {"a": {}}}]))
+                         meta=rng.choice([None, None, {"foo": "bar"}, {"str": "s", "t": [1], "kind": {"data_id": 0}}, {"n": 1, "l": [1, "x", None, True], "d": {"a": {}}}]))
                 yield dict(o, kind="save")
                 yield dict(o, kind="load")
 
@@ -288,6 +288,8 @@ BAD_HEADERS = [
     None, True, 0, 17, "nutree/1.0", [], [1, 2], {}, {"nodes": []}, {"meta": HDR}, {"meta": {}, "nodes": []},
     {"meta": {"$format_version": "1.0"}, "nodes": [[0, "a"]]},
     {"meta": {"$generator": "othertool/1.0", "$format_version": "1.0"}, "nodes": [[0, "a"]]},
+    {"meta": {"$generator": "nutree 1.0"}, "nodes": [[0, "a"]]}, {"meta": {"$generator": "Nutree/1.0"}, "nodes": [[0, "a"]]},
+    {"meta": {"$generator": "nutree"}, "nodes": []}, {"meta": {"$generator": "nu/tree"}, "nodes": []},
     {"meta": {"$generator": 7}, "nodes": []}, {"meta": {"$generator": None}, "nodes": []},
     {"meta": {"generator": "nutree/1.0"}, "nodes": []},
     {"meta": [], "nodes": []}, {"meta": ["x"], "nodes": []}, {"meta": "zzz", "nodes": []},
